@@ -340,6 +340,7 @@ def r2_lossless(rep, src, A):
     if tgt != {'full_version'}:
         rep.fail('C14.R2', fupd.site, 'recomposition target', 'the recomposed text is stored to %s instead of full_version' % sorted(tgt), where=fupd.where)
     anyl = rx.regex_lang('(?s:.*)', 0, 'fullmatch', alpha=alpha)
+    canon_int = rx.regex_lang('-?(?:0|[1-9][0-9]*)', 0, 'fullmatch', alpha=alpha)     # what '%d' % int(text) writes
     groups = A['groups']
     union = None
     shown = []
@@ -350,7 +351,7 @@ def r2_lossless(rep, src, A):
             cur = langs.get(path, anyl)
             langs[path] = cur.intersect(pl if pol else pl.complement())
         tags = {'self.' + a: g for a, g in attr_group.items()}
-        tm, _te = strlang.template_langs(term, alpha, lambda p: langs.get(p, anyl), tags, groups)
+        tm, _te = strlang.template_langs(term, alpha, lambda p: langs.get(p, canon_int if p.startswith('int(') else anyl), tags, groups)
         # world "slot present but unused" (e.g. empty revision): the group still participates; the
         # template has no markers for it, so such parses are (rightly) not covered
         union = tm if union is None else union.union(tm)
@@ -381,7 +382,7 @@ def r2_lossless(rep, src, A):
             if path in langs:
                 langs[path] = langs[path].intersect(pl if pol else pl.complement())
         tags = {'self.' + a: g for a, g in attr_group.items()}
-        tm, _te = strlang.template_langs(term, alpha, lambda p: langs.get(p, anyl), tags, groups)
+        tm, _te = strlang.template_langs(term, alpha, lambda p: langs.get(p, canon_int if p.startswith('int(') else anyl), tags, groups)
         w_ = tm.intersect(rx.lift(acc_erased, tm.markers)).not_subset_witness(accepted_marked)
         if w_ is not None and back is None:
             back = (w_, strlang.show(term))
